@@ -10,6 +10,7 @@ import (
 	"sort"
 	"testing"
 
+	"go.sia.tech/core/consensus"
 	"go.sia.tech/core/types"
 	"go.sia.tech/coreutils/chain"
 	"verifharness/hx"
@@ -272,11 +273,32 @@ func (h *history) submit(batch []int, midFlushProb float64) {
 	}
 	e := emptyEv("Submit")
 	e.Batch = batch
-	h.tw.Emit(e)
 	h.n.Store.flushAll = func() bool { return h.rng.Float64() < midFlushProb }
 	h.tipBefore = h.ids[h.n.CM.Tip().ID]
 	h.minReorgBefore = h.ids[h.n.CM.MinReorgIndex().ID]
-	cls, ops, detail := h.n.Submit(blocks, nil, 0)
+	// pre-validated path (what the syncer's instant sync does) for eligible batches
+	validated := h.rng.Float64() < 0.35
+	var states []consensus.State
+	for i, id := range batch {
+		nd := h.t.Node(id)
+		if !nd.ValidChain || nd.Height <= h.t.W.N.HardforkV2.RequireHeight || (i > 0 && nd.Parent != batch[i-1]) {
+			validated = false
+			break
+		}
+		states = append(states, nd.L.CS)
+	}
+	if validated {
+		e.Op = "SubmitV"
+	}
+	h.tw.Emit(e)
+	var cls, detail string
+	var ops []StoreOp
+	if validated {
+		cls, ops, detail = h.n.SubmitValidated(blocks, states, nil, 0)
+		h.res.Count("validated_submissions", 1)
+	} else {
+		cls, ops, detail = h.n.Submit(blocks, nil, 0)
+	}
 	for _, op := range ops {
 		o := emptyEv(op.Op)
 		if op.Op == "Apply" || op.Op == "Revert" {
@@ -292,6 +314,7 @@ func (h *history) submit(batch []int, midFlushProb float64) {
 	for _, a := range h.n.Audit(h.t, h.nm, h.tj.MaxH, p) {
 		h.mismatch(a[0], a[1])
 	}
+	h.queries()
 	if h.twin != nil {
 		tcls, _, _ := h.twin.Submit(blocks, nil, 0)
 		tp := h.twin.Project(h.t, h.nm, h.tj.MaxH)
@@ -311,6 +334,51 @@ func (h *history) submit(batch []int, midFlushProb float64) {
 			h.mismatch("driver:c19:twin-state", fmt.Sprintf("pruned node and unpruned twin disagree on the state of tip %d", p.Mem))
 		}
 	}
+}
+
+// queries logs the answers of the read-only queries the syncer relies on.
+func (h *history) queries() {
+	defer func() {
+		if r := recover(); r != nil {
+			h.mismatch("driver:c19:query-panic", fmt.Sprintf("a read-only query panicked: %v", r))
+		}
+	}()
+	name := func(id types.BlockID) int { return h.ids[id] }
+	hist, _ := h.n.CM.History()
+	he := emptyEv("Hist")
+	for _, id := range hist {
+		he.Rus = append(he.Rus, name(id))
+	}
+	h.tw.Emit(he)
+	nd := h.t.Node(1 + h.rng.Intn(len(h.t.Nodes)))
+	mx := h.rng.Intn(7)
+	hdrs, rem, err := h.n.CM.Headers(types.ChainIndex{Height: nd.Height, ID: nd.Block.ID()}, uint64(mx))
+	qe := emptyEv("Hdrs")
+	qe.B, qe.Max, qe.Err, qe.From = nd.ID, mx, "ok", int(rem)
+	if err != nil {
+		qe.Err = "notbest"
+	}
+	for _, bh := range hdrs {
+		qe.Aus = append(qe.Aus, name(bh.ID()))
+	}
+	h.tw.Emit(qe)
+	var hs []types.BlockID
+	be := emptyEv("Blks")
+	for i := 0; i < 1+h.rng.Intn(4); i++ {
+		x := h.t.Node(1 + h.rng.Intn(len(h.t.Nodes)))
+		hs = append(hs, x.Block.ID())
+		be.Rus = append(be.Rus, x.ID)
+	}
+	mx = h.rng.Intn(6)
+	blocks, rem, err := h.n.CM.BlocksForHistory(hs, uint64(mx))
+	be.Max, be.Err, be.From = mx, "ok", int(rem)
+	if err != nil {
+		be.Err = "missing"
+	}
+	for _, b := range blocks {
+		be.Aus = append(be.Aus, name(b.ID()))
+	}
+	h.tw.Emit(be)
 }
 
 // poll asks for updates for subscriber s, folds them into its shadow ledger and logs the result.
